@@ -132,6 +132,17 @@ def run(case):
         return violated("constructing the %s variant from %s rows %s raised %r" % (variant, dt, short(pyrows, 200), c), tags)
     rlx, rows = c.value
     pyrows = [r.tolist() for r in rows]
+    pre = case.get("pre")
+    if pre and variant != "2d" and all(len(r) > pre[0] for r in rows):
+        # the receiver is itself the result of a column-range selection (non-empty in every row): it is a ragged run-length array like any other
+        sl_ = slice(pre[0], pre[1])
+        p_ = attempt(lambda: rlx[:, sl_])
+        if not p_.ok:
+            return violated("rl[:, %s:%s] of the %s variant of %s rows %s raised %r" % (pre[0], pre[1], variant, dt, short(pyrows, 200), p_), tags)
+        rlx = p_.value
+        rows = [r[sl_] for r in rows]
+        pyrows = [r.tolist() for r in rows]
+        tags.append("pre:column-range")
     n = len(rows)
     lens = [len(r) for r in rows]
     desc0 = "%s run-length array of %s rows %s" % (variant, dt, short(pyrows, 200))
@@ -447,6 +458,8 @@ def gen_case(rng, tier, op=None, variant=None, dtype=None):
                     continue
             c["cs"] = cs
             return c
+        if op in ("red_row", "red_col", "unary", "scalar") and variant != "2d" and rng.random() < 0.2:
+            c["pre"] = [rng.choice([0, 0, 1]), rng.choice([None, 2, 3, 5])]
         if op == "red_row":
             c["name"] = rng.choice(["sum", "any", "all"] if variant == "2d" else ["sum", "any", "all", "max", "mean", "argmax"])
             return c
@@ -484,6 +497,11 @@ def gen_case(rng, tier, op=None, variant=None, dtype=None):
             if n == 1:
                 continue
             c.update(uf=rng.choice(["add", "subtract", "multiply", "maximum", "less"]), side=rng.choice("LR"), col=[rng.randint(0, 4) for _ in range(n)])
+            if np.dtype(dtype).kind == "f" and rng.random() < 0.5:
+                # a float column whose entries differ by many orders of magnitude / are not exactly representable: every row gets ITS entry, bit for bit
+                c.update(col=[rng.choice([0.1, 0.7, 1e16, 1.0, 3.0, 0.5, 1e-9, 0.3, 0.9, -0.3]) for _ in range(n)], coldtype="float64")
+            if variant != "2d" and rng.random() < 0.4:
+                c["pre"] = [rng.choice([0, 0, 1]), rng.choice([None, 2, 3, 5])]
             return c
     return {"op": "decode", "variant": variant, "dtype": dtype, "rows": gen_rows(rng, dtype, variant != "ragged", tier)}
 
@@ -491,6 +509,21 @@ def gen_case(rng, tier, op=None, variant=None, dtype=None):
 def directed():
     import random
     rng = random.Random(1717)
+    # 64-bit integers whose terms and partial row sums lie beyond 2**53 and cancel: row sums are exact in 64-bit integer arithmetic
+    big_ = [[2 ** 60] * 3 + [1] * 4 + [-2 ** 60] * 3, [2 ** 62, 2 ** 62 - 1, -2 ** 62, 5, 5, -2 ** 62, 0, 0, 9, 9], [7] * 10, [2 ** 53 + 1] * 2 + [3] * 6 + [-2 ** 53] * 2]
+    for variant_ in ("2d", "ragged", "ragged_from_matrix"):
+        yield {"op": "red_row", "variant": variant_, "dtype": "int64", "rows": big_, "name": "sum"}
+        if variant_ != "2d":
+            yield {"op": "npfunc", "variant": variant_, "dtype": "int64", "rows": big_, "name": "sum", "axis": -1}
+            yield {"op": "red_row", "variant": variant_, "dtype": "int64", "rows": big_, "name": "max"}
+    yield {"op": "red_row", "variant": "ragged", "dtype": "uint64", "rows": [[2 ** 63, 1, 1, 2 ** 62], [2 ** 53 + 1, 2 ** 53 + 1, 7, 7, 7]], "name": "sum"}
+    # a float column with entries of very different magnitude applied to a column-range selection (and to what is computed from it)
+    F_ = [[1.0, 1.0, 2.0, 2.0, 2.0], [3.0, 3.0, 3.0, 0.5], [0.25, 0.25, 4.0, 4.0], [1.5, 1.5, 1.5]]
+    for col_ in ([1e16, 1.0, 3.0, 0.5], [0.1, 0.7, 0.3, 0.9]):
+        for pre_ in ([0, 3], [1, None], [0, 2]):
+            for uf_ in ("multiply", "add", "subtract"):
+                for side_ in "LR":
+                    yield {"op": "colvec", "variant": "ragged", "dtype": "float64", "rows": F_, "uf": uf_, "side": side_, "col": col_, "coldtype": "float64", "pre": pre_}
     for op in OPS:
         for dtype in gen.DT_ALL:
             for variant in ["2d", "ragged", "ragged_from_matrix"]:
